@@ -244,6 +244,66 @@ pub fn run(tier: Tier, reg: &[VT]) -> Report {
 			}
 		}
 	});
+	// (2b) sequences spanning several 16 KiB preallocation chunks through every input kind
+	let bigs: Vec<&VT> = reg
+		.iter()
+		.filter(|v| (t || v.core || v.class == "leaf" || v.class == "twin") && matches!((v.shape)(), Shape::Seq(k, ref e) if !e.zero_width() && !matches!(k, refmodel::SeqKind::Set | refmodel::SeqKind::List)) || matches!((v.shape)(), Shape::Str | Shape::Bytes | Shape::Bits { .. }))
+		.collect();
+	let acc_big = par(&bigs, |vt, acc| {
+		heartbeat(&format!("{} big", vt.name));
+		let shape = (vt.shape)();
+		let mut inputs: Vec<Vec<u8>> = vec![];
+		match &shape {
+			Shape::Seq(_, e) => {
+				let unit = ref_enc(e, &domain::fill(e, 0)).map(|x| x.len().max(1)).unwrap_or(1);
+				for n in [16384 / unit + 1, 2 * 16384 / unit, 3 * 16384 / unit + 5] {
+					if let Ok(x) = ref_enc(&shape, &Value::List((0..n).map(|i| domain::fill(e, i)).collect())) {
+						inputs.push(x);
+					}
+				}
+			},
+			Shape::Str => inputs.push(ref_enc(&shape, &Value::Str("q".repeat(40_000))).unwrap()),
+			Shape::Bytes => inputs.push(ref_enc(&shape, &Value::Bytes((0..40_000u32).map(|i| i as u8).collect())).unwrap()),
+			Shape::Bits { .. } => inputs.push(ref_enc(&shape, &Value::Bits((0..300_000).map(|i| i % 3 == 0).collect())).unwrap()),
+			_ => {},
+		}
+		for mut x in inputs {
+			x.extend_from_slice(&[0x01, 0xfe]);
+			for input in [&x[..], &x[..x.len() - 7]] {
+				acc.evaluations += 1;
+				acc.transitions += 8;
+				match light(vt, &shape, input) {
+					Ok((class, _)) => {
+						acc.states += 1;
+						acc.traces += 1;
+						acc.nontrivial += 1;
+						acc.outcome(class);
+					},
+					Err(d) => viol(acc, "C08.light", vt, input, d),
+				}
+				match chunks(vt, &shape, input, 0).and_then(|_| {
+					// a few short-read schedules on the long input
+					for sched in [[(0usize, ReadChoice::One)], [(1, ReadChoice::Half)], [(2, ReadChoice::Interrupted)], [(3, ReadChoice::One)]] {
+						let mut cr = ChunkReader::new(input, &sched);
+						let r = guarded(|| (vt.decode_io)(&mut cr)).map_err(|p| format!("decode under read schedule {:?} panicked: {}", sched, p))?;
+						let base = (vt.decode)(input);
+						let r = r.map(|v| subjects::vt::DecOk { value: v, consumed: cr.pos });
+						same(&shape, &base, &r, &format!("short-read reader, schedule {:?}", sched))?;
+					}
+					Ok(5u64)
+				}) {
+					Ok(runs) => {
+						acc.states += runs;
+						acc.traces += runs;
+						acc.transitions += runs;
+					},
+					Err(d) => viol(acc, "C08.chunks1", vt, input, d),
+				}
+			}
+		}
+	});
+	rep.part("multi-chunk sequences", "vectors / deques / heaps / strings / byte buffers / bit sequences spanning 1..3 preallocation chunks (+ a truncated variant) through every input kind and a few short-read schedules", acc_big);
+
 	rep.part(
 		"valid encodings, mutations, short-read schedules",
 		&format!("every registry type x boundary values (+2 trailing bytes): all input kinds; IoReader over a reader whose every read call is a choice point (full / 1 byte / half / Interrupted) with <= {} deviations; single-byte deviations of the encodings for core types", bound),
